@@ -13,6 +13,8 @@
 //                position x switch position/kind x read pattern x {unbounded, 3-byte} buffer bound.
 //                --count-only prints the size of the space.
 //   --mode tcp   end to end: real TcpEngine + raw loopback peer that sends data and FIN back to back.
+//   --mode multi several Sync sessions on one Transport with a tiny syncBufferGcThreshold closing with undrained
+//                tails while unrelated sessions open/close (tombstone GC), late drains with small buffers.
 //   --mode probe second concurrent reader must be rejected loudly (Cancelled), not served.
 #define VF_SHIM_CONDVAR
 #include "shim/shims.hpp"
@@ -465,6 +467,182 @@ static void runProbe(uint64_t seed, uint64_t idx)
   H.tr.reset();
 }
 
+// ================================================================================ multi-session
+// Several Sync-mode sessions on ONE Transport with a small syncBufferGcThreshold, closing in a seeded
+// order with undrained bytes buffered, unrelated sessions opening/closing in between (each close runs
+// the tombstone GC over every other session's buffer), late drains with small buffers afterwards.
+// Sequential (one director); every main session is judged by the ordinary per-session checker.
+struct Multi
+{
+  std::shared_ptr<Transport> tr;
+  std::shared_ptr<vf::ScriptedEngine::Control> ctl;
+  std::vector<std::unique_ptr<Hist>> hs;
+  std::mutex m;
+  std::map<SessionId, Hist *> bySid;
+  std::atomic<uint64_t> fillerBytes{0};
+  Hist *find(SessionId sid) { std::lock_guard<std::mutex> g(m); auto it = bySid.find(sid); return it == bySid.end() ? nullptr : it->second; }
+};
+static thread_local Hist *tlsHist = nullptr;
+static void bindM(Hist &H, int t) { bindThread(H, t); tlsHist = &H; }
+
+static void runMulti(uint64_t seed, uint64_t idx, Totals &T, bool big)
+{
+  auto &O = vf::out();
+  vf::Rng rng(seed, idx * 8 + 6);
+  auto Mp = std::make_unique<Multi>();
+  Multi &M = *Mp;
+  Multi *mp = &M;
+  exemptFromCondvarShim(true);
+  tlsThread = T_DIRECTOR;
+  auto eng = std::make_unique<vf::ScriptedEngine>();
+  M.ctl = eng->control();
+  M.ctl->threadInit = [] { tlsThread = T_IO; tlsLog = nullptr; tlsHist = nullptr; exemptFromCondvarShim(true); };
+  M.ctl->localCloseHook = [mp](SessionId sid, bool after, bool flag) {
+    Hist *h = mp->find(sid);
+    if (!h) return;
+    if (!after) { bindM(*h, T_IO); Ev e; e.type = EV_CLOSE; e.thread = T_IO; e.a = 1; e.s0 = seq(); tlsLog->ev.push_back(e); }
+    else { Ev &e = h->logs[T_IO].ev.back(); e.s1 = seq(); e.b = flag ? 1 : 0; if (flag) h->closeDone = true; }
+  };
+  iora::network::TransportConfig cfg;
+  size_t threshold = big ? cfg.syncBufferGcThreshold : size_t(rng.range(1, 8));
+  cfg.syncBufferGcThreshold = threshold;
+  cfg.maxSyncReceiveBuffer = rng.chance(0.85) ? (1u << 20) : size_t(rng.range(4, 60));
+  M.tr = iora::network::test::TransportEngineInjector::withEngine(std::move(eng), cfg);
+  M.tr->onData([mp](SessionId sid, iora::core::BufferView data, std::chrono::steady_clock::time_point) {
+    Hist *h = mp->find(sid);
+    if (!h) { mp->fillerBytes += data.size(); return; }
+    if (tlsThread < 0) { h->strayCallbacks++; return; }
+    ThreadLog &L = h->logs[tlsThread];
+    Ev e; e.type = EV_CB; e.thread = uint8_t(tlsThread);
+    e.s0 = seq(); e.t0 = vf::nowNs();
+    e.payOff = uint32_t(L.arena.size()); e.payLen = uint32_t(data.size());
+    L.arena.insert(L.arena.end(), data.data(), data.data() + data.size());
+    e.encl = tlsHist == h ? tlsCurOp : -1;
+    e.a = 1;
+    e.t1 = vf::nowNs(); e.s1 = seq();
+    L.ev.push_back(e);
+  });
+  M.tr->onClose([mp](SessionId sid, const iora::network::TransportErrorInfo &) { if (Hist *h = mp->find(sid)) h->closeSeen = true; });
+  if (!M.tr->start().isOk()) { O.inconclusive("C03 multi: scripted engine did not start"); return; }
+  auto openSession = [&]() { SessionId s = M.ctl->acceptSession({"10.9.8.7", 1}); M.ctl->quiesce(); return s; };
+
+  const uint32_t nMain = uint32_t(rng.range(2, 6));
+  struct Plan { std::vector<Step> ops; size_t cur = 0; uint32_t lateLen = 1; uint64_t pending = 0; bool closed = false, sync = false; int nonData = 0; };
+  std::vector<Plan> plans(nMain);
+  std::ostringstream desc;
+  desc << "gcThreshold=" << threshold << " max=" << cfg.maxSyncReceiveBuffer << " mains=" << nMain << (big ? " big" : "");
+  for (uint32_t j = 0; j < nMain; j++)
+  {
+    auto H = std::make_unique<Hist>();
+    H->spec.kind = "multi"; H->spec.seed = seed; H->spec.idx = idx;
+    std::vector<uint32_t> lens;
+    uint32_t nc = uint32_t(rng.range(1, 5));
+    for (uint32_t i = 0; i < nc; i++) lens.push_back(rng.chance(0.7) ? uint32_t(rng.range(1, 12)) : uint32_t(rng.range(13, 90)));
+    H->spec.layout(lens);
+    H->spec.maxBuf = cfg.maxSyncReceiveBuffer;
+    H->tr = M.tr; H->ctl = M.ctl;
+    H->sid = openSession();
+    { std::lock_guard<std::mutex> g(M.m); M.bySid[H->sid] = H.get(); }
+    Plan &P = plans[j];
+    P.sync = rng.chance(0.9);
+    if (P.sync) P.ops.push_back({2, uint32_t(M_SYNC), 0});
+    double readP = rng.chance(0.5) ? 0.0 : 0.35;
+    for (uint32_t i = 0; i < nc; i++)
+    {
+      P.ops.push_back({0, i, 0});
+      if (rng.chance(readP)) P.ops.push_back({1, uint32_t(rng.range(1, 8)), 0});
+    }
+    P.ops.push_back({rng.chance(0.3) ? 4 : 3, 0, 0});
+    P.lateLen = uint32_t(rng.range(1, 8));
+    M.hs.push_back(std::move(H));
+  }
+  std::vector<SessionId> fillers;
+  uint64_t otherCloseWhileTail = 0, fillerCloses = 0;
+  auto noteOtherClose = [&](int self) {
+    for (uint32_t j = 0; j < nMain; j++)
+      if (int(j) != self && plans[j].closed && plans[j].pending > 0 && plans[j].sync) otherCloseWhileTail++;
+  };
+  auto fillerStep = [&](bool forceClose) {
+    if (!forceClose && (fillers.empty() || rng.chance(0.5)))
+    {
+      SessionId s = openSession();
+      if (rng.chance(0.4)) M.tr->setReadMode(s, ReadMode::Sync);
+      if (rng.chance(0.3)) { static const uint8_t junk[5] = {1, 2, 3, 4, 5}; auto c = M.ctl.get(); M.ctl->postWait([c, s] { c->fireData(s, junk, 5); }); }
+      fillers.push_back(s);
+      return;
+    }
+    if (fillers.empty()) { fillers.push_back(openSession()); }
+    size_t k = size_t(rng.below(fillers.size()));
+    SessionId s = fillers[k];
+    fillers.erase(fillers.begin() + long(k));
+    auto c = M.ctl.get();
+    M.ctl->postWait([c, s] { c->fireClose(s, {TransportError::PeerClosed, "filler closed", 0, 0}); });
+    fillerCloses++;
+    noteOtherClose(-1);
+  };
+  auto mainStep = [&](uint32_t j) {
+    Plan &P = plans[j];
+    Hist &H = *M.hs[j];
+    Hist *hp = &H;
+    const Step &s = P.ops[P.cur++];
+    bindM(H, T_DIRECTOR);
+    switch (s.type)
+    {
+    case 0: { uint32_t k = s.a; M.ctl->postWait([hp, k] { bindM(*hp, T_IO); ioDeliver(*hp, k); }); if (P.sync) P.pending += H.spec.chunks[k].second; break; }
+    case 1: { size_t before = H.logs[T_DIRECTOR].ev.size(); doRecv(H, s.a, 0); auto &e = H.logs[T_DIRECTOR].ev[before]; if (e.c == c03::RES_OK) P.pending -= std::min<uint64_t>(P.pending, e.payLen); break; }
+    case 2: doMode(H, int(s.a)); break;
+    case 3: M.ctl->postWait([hp] { bindM(*hp, T_IO); ioClose(*hp, false); }); P.closed = true; noteOtherClose(int(j)); break;
+    case 4: doLocalClose(H); M.ctl->quiesce(); P.closed = true; noteOtherClose(int(j)); break;
+    }
+  };
+  // phase A: interleave the mains' scripts and filler traffic
+  for (;;)
+  {
+    std::vector<uint32_t> live;
+    for (uint32_t j = 0; j < nMain; j++) if (plans[j].cur < plans[j].ops.size()) live.push_back(j);
+    if (live.empty()) break;
+    if (rng.chance(0.25)) fillerStep(false);
+    else mainStep(live[rng.below(live.size())]);
+  }
+  // every main is closed now; more unrelated closes so that the GC threshold is certainly crossed
+  uint32_t extra = big ? 1100 : uint32_t(rng.range(threshold + 1, threshold + 4));
+  for (uint32_t i = 0; i < extra; i++) { fillers.push_back(openSession()); fillerStep(true); }
+  // phase B: late drains with small buffers, a few calls per session per round, unrelated closes in between
+  for (int round = 0; round < 100000; round++)
+  {
+    bool any = false;
+    for (uint32_t j = 0; j < nMain; j++)
+    {
+      Plan &P = plans[j];
+      if (P.nonData >= 2) continue;
+      any = true;
+      Hist &H = *M.hs[j];
+      bindM(H, T_DIRECTOR);
+      int calls = int(rng.range(1, 3));
+      for (int c = 0; c < calls && P.nonData < 2; c++)
+      {
+        size_t before = H.logs[T_DIRECTOR].ev.size();
+        doRecv(H, P.lateLen, 0);
+        auto &e = H.logs[T_DIRECTOR].ev[before];
+        if (e.c == c03::RES_OK) { P.nonData = 0; P.pending -= std::min<uint64_t>(P.pending, e.payLen); } else P.nonData++;
+      }
+      if (rng.chance(0.5)) { fillers.push_back(openSession()); fillerStep(true); }
+    }
+    if (!any) break;
+  }
+  O.obs("multi_transports");
+  O.obs("multi_filler_closes", fillerCloses);
+  O.obs("multi_other_close_while_closed_tail_undrained", otherCloseWhileTail);
+  if (big) O.obs("multi_big_default_threshold");
+  for (uint32_t j = 0; j < nMain; j++)
+  {
+    M.hs[j]->spec.desc = desc.str() + " session#" + std::to_string(j) + " lateLen=" + std::to_string(plans[j].lateLen);
+    judge(*M.hs[j], T, false);
+  }
+  for (auto &h : M.hs) h->tr.reset();
+  M.tr.reset();
+}
+
 #include "c03_tcp.hpp"
 
 int main(int argc, char **argv)
@@ -488,6 +666,7 @@ int main(int argc, char **argv)
     else if (mode == "seq") runSeq(seed, i, T);
     else if (mode == "exh") { if (i < exhSpace().size()) runExh(i, T); }
     else if (mode == "probe") runProbe(seed, i);
+    else if (mode == "multi") { uint64_t be = a.u("big-every", 0); runMulti(seed, i, T, be && i % be == 0); }
     else if (mode == "tcp") runTcp(seed, i, from, count);
     else { fprintf(stderr, "unknown mode\n"); return 3; }
   }
